@@ -44,6 +44,8 @@ struct Case {
   user: BTreeMap<usize, String>,
   /// connections whose socket we closed or that the server closed
   dead: BTreeSet<usize>,
+  /// got a closing ERROR, EOF not yet seen
+  closing: BTreeSet<usize>,
   /// every frame received per connection, in order
   inbox: BTreeMap<usize, Vec<RFrame>>,
   sent: Vec<Sent>,
@@ -75,10 +77,25 @@ impl Case {
       if !frames.is_empty() {
         let _ = writeln!(self.log, "  <- {k}: {}", frames.iter().map(|f| f.text.clone()).collect::<Vec<_>>().join(" | "));
       }
+      // a non-recoverable ERROR announces the close: the server has stopped reading this connection (its teardown may
+      // still be waiting for the modulator before the socket is shut), so nothing sent from now on can be answered
+      let closing = frames.iter().any(|f| {
+        if let Message::Error(p) = &f.msg {
+          !narwhal_protocol::Error { id: None, reason: p.reason.as_ref().parse::<narwhal_protocol::ErrorReason>().unwrap_or(narwhal_protocol::ErrorReason::InternalServerError), detail: None }.is_recoverable()
+        } else {
+          false
+        }
+      });
       self.inbox.entry(k).or_default().extend(frames);
+      if closing && !self.dead.contains(&k) {
+        let _ = writeln!(self.log, "  <- {k}: closing (non-recoverable ERROR received)");
+        self.closing.insert(k);
+        self.dead.insert(k);
+      }
       if eof {
         let _ = writeln!(self.log, "  <- {k}: closed by the server");
         self.dead.insert(k);
+        self.closing.remove(&k);
       }
     }
   }
@@ -179,6 +196,7 @@ async fn run_case(case: usize, mut rng: Rng, progress: Arc<AtomicU64>) -> (Strin
     rng,
     user: BTreeMap::new(),
     dead: BTreeSet::new(),
+    closing: BTreeSet::new(),
     inbox: BTreeMap::new(),
     sent: Vec::new(),
     next_id: 10,
@@ -290,6 +308,19 @@ async fn run_case(case: usize, mut rng: Rng, progress: Arc<AtomicU64>) -> (Strin
   let still = modu.parked().len();
   let _ = writeln!(c.log, "advance {} ms with {still} calls parked", timeout_ms + 10);
   c.pump(timeout_ms + 10).await;
+  // ... then the modulator answers everything that is still parked: a connection that announced its close must now be shut
+  modu.set_hold(false);
+  let mut guard = 0;
+  while !modu.parked().is_empty() && guard < 10_000 {
+    modu.release(0, true);
+    guard += 1;
+  }
+  c.pump(50).await;
+  for k in c.closing.clone() {
+    c.fails.push(format!(
+      "C13: [closing-connection-never-closed] connection {k} received a non-recoverable ERROR but its socket is still open after the modulator answered every call"
+    ));
+  }
   // ---- C13 / C12: answered once, or the connection is closed
   for s in &c.sent {
     let n = c.replies(s.conn, s.id).len();
